@@ -197,7 +197,9 @@ def run_property(a):
 
     # ---- something is no longer discharged: look for a failing input on the real code --
     rnd_found = {}
-    if [1 for r, o in failed + unknown if is_known(o) is None]:
+    if [1 for r, o in failed + unknown if is_known(o) is None] or undecided:
+        # (also when the changed code left the verifier's subset: the contract clauses still
+        # judge the real function's input/output behaviour)
         for f in random_ce_search(prop, targets, seed, 150 if tier == "quick" else 2000):
             rnd_found.setdefault(f["target"], f)
 
@@ -249,6 +251,15 @@ def run_property(a):
             notes.append("CONTRACT-DRIFT: " + "; ".join(drift))
 
     kf_hits = []
+    if rnd_found and not pl_failed and not pl_unknown and not (failed + unknown):
+        # nothing was refuted symbolically (the code left the supported subset), but the real
+        # code violates a property-level clause on a concrete input
+        for tgt, f in rnd_found.items():
+            from .path import Obligation as _Ob
+
+            o = _Ob(f["obligation"], "failed", 0.0, "random search on the real code", level="property",
+                    detail="symbolic run undecided (%s); failing input found by random concrete search" % (undecided[0][:120] if undecided else ""))
+            pl_unknown.append((by.get(tgt, reports[0]), o))
     if rnd_found and not pl_failed and not pl_unknown:
         # only helper-level obligations broke, but the real code violates a property-level
         # clause on a concrete input: report it against the first broken obligation
